@@ -1082,6 +1082,12 @@ fn handle_fn(
                 }
             }
             syn::FnArg::Typed(t) => {
+                if let syn::Pat::Wild(w) = &*t.pat {
+                    // R1b: Verus needs every parameter named; `_: T` becomes `_pK: T` (K = position)
+                    let k = sig.inputs.iter().position(|x| std::ptr::eq(x, inp)).unwrap_or(0);
+                    sig_edits.replace(br(w), format!("_p{}", k));
+                    log.push(format!("R1b:`_` parameter {} named _p{}", k, k));
+                }
                 if let syn::Pat::Ident(pi) = &*t.pat {
                     if let (Some(m), None) = (&pi.mutability, &pi.by_ref) {
                         sig_edits.replace(br(m).start..br(&pi.ident).start, "");
